@@ -519,41 +519,37 @@ def run_val(model, rep, A, specs, mutex):
         rep.violation('C13.VAL', A.main.loc(), 'main', 'main() does not call parse_args()', key='C13.VAL|order')
     else:
         late = []
-        for s in A.sinks(A.main):
-            if s.facts is not None and ('<did:%s>' % pa_name, True) not in s.facts:
+        for s in A.lifted_sinks():
+            if s.func is A.main and ('<did:%s>' % pa_name, True) not in s.facts:
                 late.append(s)
-        for (c, path, mode, alias) in A.open_calls(A.main):
-            f = mf.facts_at(c)
-            if f is not None and ('<did:%s>' % pa_name, True) not in f:
+        for (g, c, path, mode, f) in A.lifted_opens():
+            if g is A.main and ('<did:%s>' % pa_name, True) not in f:
                 late.append(c)
-        rep.check(not late, 'C13.VAL', A.main.loc(), 'parse_args() dominates every write and open in main', '%d sinks checked' % (len(A.sinks(A.main))),
+        rep.check(not late, 'C13.VAL', A.main.loc(), 'parse_args() dominates every write and open in main', '%d sinks checked' % (len(A.lifted_sinks())),
                   'something is written before arguments are validated', key='C13.VAL|order')
     rep.floor('C13.VAL', 3)
 
 
 def run_out(model, rep, A):
     dm = A.do_minify
-    for fi in [f for f in model.funcs.values() if f.module == MAIN and f.name not in A.stdout_wrappers]:
-        if fi.qual not in A.facts:
-            A.facts[fi.qual] = Facts(fi.node)
-            A.defs[fi.qual] = local_defs(fi.node)
-        for s in A.sinks(fi):
-            if s.facts is None:
-                continue
-            kind, why = A.classify_payload(fi, s.payload)
-            where = fi.loc(s.call)
-            tgt = src(s.target) if s.target is not None else s.kind
-            key = 'C13.OUT|%s|%s|%s' % (fi.name, src(s.call), tgt)
-            if kind == 'listing':
-                listing_ok = any(p and ('output' in k or 'in_place' in k) for (k, p) in s.facts if not k.startswith('<'))
-                rep.check(listing_ok and s.kind == 'stdout-text', 'C13.OUT', where, src(s.call), 'path listing only when stdout is not the output channel',
-                          'path listing can be mixed into minified output on stdout', key=key)
-            elif kind in ('minified', 'source'):
-                binary = (s.kind == 'stdout-bytes') or (s.kind == 'file' and isinstance(s.mode, str) and 'b' in s.mode and any(ch in s.mode for ch in 'wax'))
-                rep.check(binary, 'C13.OUT', where, '%s -> %s' % (src(s.call), tgt), 'payload %s written through a binary channel' % kind,
-                          'payload is written through a text-mode channel (newline / encoding translation)', key=key)
-            else:
-                rep.violation('C13.OUT', where, src(s.call), 'written payload is neither the do_minify result nor the bytes read: ' + why, key=key)
+    for snk in A.lifted_sinks():
+        fi = snk.func
+        where = fi.loc(snk.call)
+        tgt = src(snk.target) if snk.target is not None else snk.kind
+        in_handler = ('<caught:%s>' % NOT_BENEFICIAL, True) in snk.facts
+        key = 'C13.OUT|%s|%s|%s|%s' % (fi.name, src(snk.payload), tgt, 'handler' if in_handler else 'normal')
+        ok, kind, why = A.judge_sink(snk)
+        if ok is None:
+            listing_ok = any(p and ('output' in k or 'in_place' in k) for (k, p) in snk.facts if not k.startswith('<'))
+            rep.check(listing_ok and snk.kind == 'stdout-text', 'C13.OUT', where, src(snk.call), 'path listing only when stdout is not the output channel',
+                      'path listing can be mixed into minified output on stdout', key=key)
+            continue
+        if not ok:
+            rep.violation('C13.OUT', where, '%s -> %s' % (src(snk.call)[:60], tgt), why, key=key)
+            continue
+        binary = (snk.kind == 'stdout-bytes') or (snk.kind == 'file' and isinstance(snk.mode, str) and 'b' in snk.mode and any(ch in snk.mode for ch in 'wax'))
+        rep.check(binary, 'C13.OUT', where, '%s -> %s' % (src(snk.call)[:60], tgt), 'payload (%s) written through a binary channel' % kind,
+                  'payload is written through a text-mode channel (newline / encoding translation)', key=key)
     # wrappers write exactly their parameter
     for name, fi in A.stdout_wrappers.items():
         ws = [c for c in calls(fi.node) if isinstance(c.func, ast.Attribute) and c.func.attr in ('write', 'writelines')]
@@ -591,7 +587,7 @@ def run_out(model, rep, A):
         ok = ok and isinstance(enc, str) and enc.lower().replace('_', '-') in ('utf-8', 'utf8')
         rep.check(ok, 'C13.OUT', dm.loc(ret), 'return ' + src(ret.value), 'minify(...).encode("utf-8")', 'returned payload is not the strict UTF-8 encoding of the minify() result: ' + src(e),
                   key='C13.OUT|return|' + src(ret.value))
-    rep.floor('C13.OUT', 8)
+    rep.floor('C13.OUT', 4)
 
 
 def run_doc(model, rep, A, specs):
